@@ -48,10 +48,21 @@ impl EditGen {
         let len = text.len();
         let mut labels = vec![];
         // undo of the most recent edit (returns towards an earlier text)
-        if !self.undo.is_empty() && t.pct(22) {
+        if !self.undo.is_empty() && t.pct(30) {
             let e = self.undo.pop().unwrap();
             if e.old_end <= len && e.start <= e.old_end {
                 labels.push("edit:undo");
+                return GenEdit { edit: e, labels };
+            }
+        }
+        if t.pct(48) {
+            if let Some(e) = valid_preserving(lang, text, t) {
+                labels.push("edit:structure_preserving");
+                let removed = text.bytes[e.start..e.old_end].to_vec();
+                self.undo.push(Edit { start: e.start, old_end: e.start + e.inserted.len(), inserted: removed });
+                if self.undo.len() > 16 {
+                    self.undo.remove(0);
+                }
                 return GenEdit { edit: e, labels };
             }
         }
@@ -212,5 +223,87 @@ impl EditGen {
             self.undo.remove(0);
         }
         GenEdit { edit, labels }
+    }
+}
+
+/// edits that usually keep a valid document valid: word replacement, duplicate whitespace,
+/// whole-line insertion with the line's indentation, whole-line deletion
+fn valid_preserving(lang: &Lang, text: &Text, t: &mut Tape) -> Option<Edit> {
+    let b = &text.bytes;
+    let len = b.len();
+    match t.weighted(&[35, 15, 35, 15]) {
+        0 => {
+            // replace a word by a word of the same kind
+            let mut words: Vec<(usize, usize)> = vec![];
+            let mut i = 0;
+            while i < len {
+                if class_of(b[i]) == 0 {
+                    let s = i;
+                    while i < len && class_of(b[i]) == 0 {
+                        i += 1;
+                    }
+                    words.push((s, i));
+                } else {
+                    i += 1;
+                }
+            }
+            if words.is_empty() {
+                return None;
+            }
+            let lits = doc::literals_of(lang);
+            for _ in 0..4 {
+                let (s, e) = *t.pick(&words);
+                let w = &b[s..e];
+                if lits.iter().any(|l| l.as_bytes() == w) {
+                    continue;
+                }
+                let digits = w.iter().all(|c| c.is_ascii_digit());
+                let rep: &[u8] = if digits { *t.pick(&[&b"0"[..], b"7", b"12", b"345"]) } else { *t.pick(&[&b"a"[..], b"b", b"x1", b"foo", b"q_r", "\u{e9}".as_bytes()]) };
+                return Some(Edit { start: s, old_end: e, inserted: rep.to_vec() });
+            }
+            None
+        }
+        1 => {
+            // duplicate an inter-token space (not at a line start)
+            let cands: Vec<usize> = (1..len).filter(|&i| b[i] == b' ' && b[i - 1] != b'\n' && b[i - 1] != b' ').collect();
+            if cands.is_empty() {
+                return None;
+            }
+            let p = *t.pick(&cands);
+            Some(Edit { start: p, old_end: p, inserted: b" ".to_vec() })
+        }
+        2 => {
+            // insert whole line(s) at a line start, carrying that line's indentation
+            let frs = lang.meta_strs("line_fragments");
+            if frs.is_empty() {
+                return None;
+            }
+            let row = t.below(text.line_count());
+            let ls = text.line_start(row);
+            let mut ind = Vec::new();
+            let mut k = ls;
+            while k < len && (b[k] == b' ' || b[k] == b'\t') {
+                ind.push(b[k]);
+                k += 1;
+            }
+            let fr = t.pick(&frs).clone();
+            let mut ins = Vec::new();
+            for line in fr.split_inclusive('\n') {
+                ins.extend_from_slice(&ind);
+                ins.extend_from_slice(line.as_bytes());
+            }
+            if !ins.ends_with(b"\n") {
+                ins.push(b'\n');
+            }
+            Some(Edit { start: ls, old_end: ls, inserted: ins })
+        }
+        _ => {
+            // delete a whole line
+            if text.line_count() < 2 {
+                return None;
+            }
+            let row = t.below(text.line_count() - 1);
+            Some(Edit { start: text.line_start(row), old_end: text.line_start(row + 1), inserted: vec![] })
+        }
     }
 }
